@@ -83,6 +83,7 @@ func runC04(c *Ctx, r *Rec) {
 	mkey := objKey(qr.mutexF)
 	fw := c.fieldWrites()
 
+	checkReceiverWrites(c, r, "D1-receiver-writes-persist", qr.q)
 	// ---- D1 lock discipline
 	st := structOf(qr.q)
 	for i := 0; i < st.NumFields(); i++ {
@@ -415,25 +416,35 @@ func runC05(c *Ctx, r *Rec) {
 }
 
 // checkSelfFill: if fd creates a queue through a class constructor and calls the
-// blocking AddValue on it inside a loop, the capacity argument must be >= the
-// number of values (all GetSize()/len() in the function are that number n).
+// blocking AddValue on it inside a loop, the capacity given at creation must be
+// >= the number of values the loop's source holds (tracked sizes; n = size of
+// the caller's input).
 func checkSelfFill(c *Ctx, r *Rec, info *types.Info, fd *ast.FuncDecl, qr *queueRoles) int {
 	isQueueT := func(t types.Type) bool {
 		n := derefNamed(t)
 		return n != nil && (n.Origin() == qr.q.Origin() || n.Obj().Name() == "QueueLike")
 	}
-	// variables of queue type filled in loops
+	// is there a fill loop at all?
 	type fill struct {
 		obj  types.Object
-		call *ast.CallExpr
+		loop ast.Stmt
 	}
 	var fills []fill
 	for _, loop := range loopsIn(fd.Body) {
 		inspectNoLit(loop, func(x ast.Node) bool {
-			if rx, mname, call, ok := methodCall(x); ok && mname == "AddValue" {
+			if rx, mname, _, ok := methodCall(x); ok && mname == "AddValue" {
 				if id, ok := ast.Unparen(rx).(*ast.Ident); ok {
 					if t := info.Types[id].Type; t != nil && isQueueT(t) {
-						fills = append(fills, fill{info.Uses[id], call})
+						o := info.Uses[id]
+						isParam := false
+						for _, p := range paramObjs(info, fd) {
+							if p == o {
+								isParam = true
+							}
+						}
+						if v, ok := o.(*types.Var); ok && !isParam && !v.IsField() {
+							fills = append(fills, fill{o, loop})
+						}
 					}
 				}
 			}
@@ -443,126 +454,100 @@ func checkSelfFill(c *Ctx, r *Rec, info *types.Info, fd *ast.FuncDecl, qr *queue
 	if len(fills) == 0 {
 		return 0
 	}
+	env := &symEnv{info: info}
+	var tracker *sizeTracker
+	capKey := func(o types.Object) string { return "cap:" + objKey(o) }
+	tracker = newSizeTracker(info, fd, env, nil)
+	prevAssign := env.onAssign
+	env.onAssign = func(st *symState, lhs ast.Expr, rhs ast.Expr) {
+		prevAssign(st, lhs, rhs)
+		o := identObj(info, lhs)
+		if o == nil || !isQueueT(o.Type()) {
+			return
+		}
+		_, mname, call, ok := methodCall(ast.Unparen(rhs))
+		if !ok {
+			return
+		}
+		switch {
+		case mname == "MakeWithCapacity" && len(call.Args) == 1:
+			st.vars[capKey(o)] = env.eval(st, call.Args[0])
+		case mname == "Make":
+			st.vars[capKey(o)] = Val{Lin: linSym("default-capacity")}
+		default:
+			delete(st.vars, capKey(o)) // built by a constructor that sizes it itself
+		}
+	}
+	type finding struct {
+		obj  types.Object
+		text string
+	}
+	var findings []finding
+	checked := map[types.Object]int{}
+	prevLoop := env.onLoop
+	env.onLoop = func(st *symState, loop ast.Stmt) {
+		for _, fl := range fills {
+			if fl.loop != loop {
+				continue
+			}
+			capV, ok := st.vars[capKey(fl.obj)]
+			if !ok {
+				continue
+			}
+			checked[fl.obj]++
+			// the source of the loop
+			var src *Lin
+			if fs, ok := loop.(*ast.ForStmt); ok && fs.Cond != nil {
+				if it := findIterCond(info, fs.Cond, "HasNext"); it != nil {
+					ast.Inspect(fd.Body, func(x ast.Node) bool {
+						if lhs, rhs, ok := multiDef(x); ok && len(lhs) == 1 && identObj(info, lhs[0]) == it {
+							if rx, mname, _, ok := methodCall(ast.Unparen(rhs)); ok && mname == "GetIterator" {
+								src = tracker.sizeAt(st, rx)
+							}
+						}
+						return true
+					})
+				}
+			}
+			if rs, ok := loop.(*ast.RangeStmt); ok {
+				src = tracker.sizeAt(st, rs.X)
+			}
+			if src == nil {
+				src = tracker.n
+			}
+			full := append(append(Cube{}, env.base...), st.cube...)
+			switch {
+			case capV.Lin == nil:
+				findings = append(findings, finding{fl.obj, "the capacity given to the new queue is not an integer form"})
+			default:
+				if sat, dec := satF(full, lt(capV.Lin, src)); sat || !dec {
+					findings = append(findings, finding{fl.obj, fmt.Sprintf("the queue is created with capacity %s and then filled in this same function, through the blocking AddValue, with %s values: for some inputs (on {%s}) that is more than the capacity and the call blocks on itself forever", capV.Lin, src, full)})
+				}
+			}
+		}
+		prevLoop(st, loop)
+	}
+	symRun(env, fd.Body)
 	sites := 0
 	seen := map[types.Object]bool{}
 	for _, fl := range fills {
-		if seen[fl.obj] || fl.obj == nil {
+		if seen[fl.obj] {
 			continue
 		}
 		seen[fl.obj] = true
-		// parameters and captured queues are someone else's: only locally created ones
-		if v, ok := fl.obj.(*types.Var); ok {
-			isParam := false
-			for _, p := range paramObjs(info, fd) {
-				if p == v {
-					isParam = true
-				}
-			}
-			if isParam || v.IsField() {
-				continue
-			}
-		}
-		// find the creating assignments
-		var creators []*ast.CallExpr
-		ast.Inspect(fd.Body, func(x ast.Node) bool {
-			switch s := x.(type) {
-			case *ast.AssignStmt:
-				for i, l := range s.Lhs {
-					if id, ok := l.(*ast.Ident); ok && (info.Defs[id] == fl.obj || info.Uses[id] == fl.obj) && i < len(s.Rhs) {
-						if call, ok := ast.Unparen(s.Rhs[i]).(*ast.CallExpr); ok {
-							creators = append(creators, call)
-						}
-					}
-				}
-			case *ast.ValueSpec:
-				for i, nm := range s.Names {
-					if info.Defs[nm] == fl.obj && i < len(s.Values) {
-						if call, ok := ast.Unparen(s.Values[i]).(*ast.CallExpr); ok {
-							creators = append(creators, call)
-						}
-					}
-				}
-			}
-			return true
-		})
-		// only creators that dominate... keep those inside the same switch arm / block as the loop: use all
 		construct := c.fdName(fd) + "/" + fl.obj.Name()
-		// the loop's enclosing statement list: restrict creators to those in the same case clause as the fill
-		chain := pathTo(fd.Body, fl.call)
-		var clause ast.Node
-		for _, n := range chain {
-			if cc, ok := n.(*ast.CaseClause); ok {
-				clause = cc
-			}
-		}
-		var rel []*ast.CallExpr
-		for _, cr := range creators {
-			if clause == nil || containsNode(clause, cr) {
-				rel = append(rel, cr)
-			}
-		}
-		if len(rel) == 0 {
-			continue
-		}
-		sites++
-		// interpret the function (or the clause) with n = every GetSize()/len()
-		env := &symEnv{info: info}
-		n := sym("n")
-		env.base = Cube{n.scale(-1)}
-		type capRec struct {
-			arg  Val
-			cube Cube
-			name string
-		}
-		var recs []capRec
-		env.resolve = func(e ast.Expr) (Val, bool) {
-			call, ok := e.(*ast.CallExpr)
-			if !ok {
-				return Val{}, false
-			}
-			if isBuiltinCall(info, call, "len") {
-				return Val{Lin: n}, true
-			}
-			if _, mname, _, ok := methodCall(call); ok && mname == "GetSize" && len(call.Args) == 0 {
-				return Val{Lin: n}, true
-			}
-			for _, cr := range rel {
-				if cr == call {
-					_, mname, _, _ := methodCall(call)
-					rec := capRec{cube: append(Cube{}, env.cur.cube...), name: mname}
-					if len(call.Args) == 1 {
-						rec.arg = env.eval(env.cur, call.Args[0])
-					}
-					recs = append(recs, rec)
-					return Val{Opaque: "new-queue"}, true
-				}
-			}
-			return Val{}, false
-		}
-		var body *ast.BlockStmt
-		if clause != nil {
-			body = &ast.BlockStmt{List: stmtsBeforeLoops(clause.(*ast.CaseClause).Body)}
-		} else {
-			body = &ast.BlockStmt{List: stmtsBeforeLoops(fd.Body.List)}
-		}
-		symRun(env, body)
 		if len(env.problems) > 0 {
 			r.undecided("D2-no-self-fill", construct, c.pos(fd.Pos()), strings.Join(dedup(env.problems), "; "))
 			continue
 		}
-		bad := ""
-		if len(recs) == 0 {
-			bad = "the queue's creation was not reached by the interpreter"
+		if checked[fl.obj] == 0 {
+			continue // the queue filled here was not created with an explicit or default capacity in this function
 		}
-		for _, rc := range recs {
-			full := append(append(Cube{}, env.base...), rc.cube...)
-			switch {
-			case rc.name != "MakeWithCapacity" || rc.arg.Lin == nil:
-				bad = fmt.Sprintf("the queue is created with %s (a capacity that does not depend on the number of values) and then filled through the blocking AddValue in this same function: with more values than the capacity the call blocks on itself forever", rc.name)
-			default:
-				if sat, dec := satF(full, lt(rc.arg.Lin, n)); sat || !dec {
-					bad = fmt.Sprintf("the queue is created with capacity %s, which is smaller than the number n of values for some n (on {%s}), and then filled through the blocking AddValue: the call blocks on itself forever", rc.arg.Lin, full)
-				}
+		sites++
+		bad := ""
+		for _, f := range findings {
+			if f.obj == fl.obj {
+				bad = f.text
 			}
 		}
 		r.check(bad == "", "D2-no-self-fill", construct, c.pos(fd.Pos()), "the capacity given to the new queue is >= the number of values it is then filled with, on all integers", bad)
